@@ -8,6 +8,8 @@ import GocoinV.Proofs.C01Decode
 import GocoinV.Proofs.C01Num
 import GocoinV.Proofs.C01Ops
 import GocoinV.Proofs.C01NoPanic
+import GocoinV.Proofs.C01Loop
+import GocoinV.Proofs.C01Wrap
 namespace GocoinV.Props.C01
 open GocoinV GocoinV.Script GocoinV.Proofs.C01
 
@@ -54,18 +56,8 @@ theorem bts2intExt_eq_scriptnum (d : Bytes) (mx : Nat) (fm : Bool) :
     bts2intExt d mx fm =
       match ScriptSpec.ScriptNum.read d fm mx with
       | Except.ok v => Res.ok v
-      | Except.error _ => Res.panic := by
-  unfold bts2intExt ScriptSpec.ScriptNum.read
-  rw [numOfBytes_eq_decode, isMinimal_eq]
-  by_cases h1 : d.length > mx
-  · simp [h1, throw, throwThe, MonadExceptOf.throw]
-  · by_cases h2 : d.length = 0
-    · have : d = [] := List.eq_nil_of_length_eq_zero h2
-      subst this
-      simp [ScriptSpec.ScriptNum.minimal, ScriptSpec.ScriptNum.decode, pure, Except.pure]
-    · by_cases h3 : (fm && !ScriptSpec.ScriptNum.minimal d) = true
-      · simp [h1, h2, h3, throw, throwThe, MonadExceptOf.throw]
-      · simp [h1, h2, h3, pure, Except.pure]
+      | Except.error _ => Res.panic :=
+  bts2intExt_eq d mx fm
 
 /-- `is_minimal` is Core's minimal-encoding rule. -/
 theorem isMinimal_eq_core (d : Bytes) : isMinimal d = ScriptSpec.ScriptNum.minimal d := isMinimal_eq d
@@ -73,14 +65,13 @@ theorem isMinimal_eq_core (d : Bytes) : isMinimal d = ScriptSpec.ScriptNum.minim
 /-- `bts2bool` is Core's `CastToBool` (negative zero is false). -/
 theorem bts2bool_eq_castToBool (d : Bytes) : bts2bool d = ScriptSpec.castToBool d := bts2bool_eq d
 
-/-- `pushInt` pushes `CScriptNum::serialize(v)` for every value an int64 can hold. -/
-theorem pushInt_eq_serialize (v : Int) (hv : v.natAbs < 2 ^ 63) : intBytes v = ScriptSpec.ScriptNum.encode v :=
-  intBytes_eq_encode v (by have : (2:Nat) ^ 63 < 256 ^ 9 := by decide
-                           omega)
+/-- `pushInt` pushes `CScriptNum::serialize(v)`, for every integer. -/
+theorem pushInt_eq_serialize (v : Int) : intBytes v = ScriptSpec.ScriptNum.encode v :=
+  intBytes_eq_encode v
 
 /-- `bts2int ∘ pushInt = id`: reading back what `pushInt` pushed gives the number (no length check involved). -/
-theorem numOfBytes_pushInt (v : Int) (hv : v.natAbs < 2 ^ 63) : numOfBytes (intBytes v) = v := by
-  rw [numOfBytes_eq_decode, pushInt_eq_serialize v hv, decode_encode]
+theorem numOfBytes_pushInt (v : Int) : numOfBytes (intBytes v) = v := by
+  rw [numOfBytes_eq_decode, pushInt_eq_serialize v, decode_encode]
 
 /-- Core's round trip, for every integer. -/
 theorem scriptnum_decode_encode (v : Int) : ScriptSpec.ScriptNum.decode (ScriptSpec.ScriptNum.encode v) = v := decode_encode v
@@ -173,67 +164,125 @@ theorem limit_stack_size (c : Ctx) (st st' : St) (op : Op) (idx pos : Nat)
   repeat' (split at h)
   all_goals first | (simp at h; done) | exact key _ h
 
-/-! ## (v) step / script equivalence between model and reference semantics
+/-! ## (v) step / script equivalence between model and reference semantics — EVERY opcode
 
-`provedOp`: every push opcode 0x00–0x4e (all four push forms, with the MINIMALDATA rule), OP_1NEGATE, OP_1…OP_16,
-OP_NOP, OP_VERIFY, OP_RETURN, OP_TOALTSTACK, OP_FROMALTSTACK, OP_2DROP, OP_2DUP, OP_3DUP, OP_2OVER, OP_2ROT, OP_2SWAP,
-OP_IFDUP, OP_DROP, OP_DUP, OP_NIP, OP_OVER, OP_ROT, OP_SWAP, OP_TUCK, OP_EQUAL, OP_EQUALVERIFY, OP_RIPEMD160, OP_SHA1,
-OP_SHA256, OP_HASH160, OP_HASH256, OP_NOP1, OP_NOP4…OP_NOP10 — plus, inside the frame lemma, the checks that apply
-to EVERY opcode (520-byte push size, 201-op count, disabled opcodes, CONST_SCRIPTCODE's OP_CODESEPARATOR rule,
-1000-element stack limit). -/
+Side conditions (explicit hypotheses, both about things outside lib/script):
+  * `TapSigHashOk T tx` — the taproot signature-hash oracle answers "no digest" (nil, modelled as the empty string)
+    exactly where BIP341 defines none (undefined hash type; SIGHASH_SINGLE without a matching output). This is
+    property C02's statement about `Tx.TaprootSigHash`; script verification turns "no digest" into "signature
+    check fails" (`checkSchnorrSignature` of the model, `CheckSchnorrSignature` of the code).
+  * `NopsOk flags` — DISCOURAGE_UPGRADABLE_NOPS only together with CHECKLOCKTIMEVERIFY and CHECKSEQUENCEVERIFY:
+    excludes the known policy-only difference `cltv-csv-discouraged-nop` (known_findings.txt). -/
 
-/-- One interpreter iteration: for a proved opcode, the model's loop body (after `GetOpcode`) and the spec's
-    `execInstr` on the corresponding parsed instruction either both fail, or both succeed in related states
-    (same stack, altstack, op count, script code, codeseparator position, sigop budget). All flag sets, all
-    signature versions, every total instance of the cryptography. -/
-theorem step_equiv_partial (T : TotalOracles) (c : Ctx) (hO : c.O = T.toOracles) (leaf : Bytes) (annex : Option Bytes)
+/-- One interpreter iteration, for EVERY opcode (pushes, constants, flow control with the vector ↔ counter condition
+    stack, stack and numeric opcodes, hashes, CODESEPARATOR, CLTV/CSV, CHECKSIG(VERIFY/ADD), CHECKMULTISIG(VERIFY),
+    reserved / disabled / unknown opcodes): the model's loop body (after `GetOpcode`) and the spec's `execInstr` on the
+    corresponding parsed instruction either both fail, or both succeed in related states (same stack, altstack,
+    condition stack, op count, script code, codeseparator position, sigop budget). All flag sets subject to `NopsOk`,
+    all signature versions, every total instance of the cryptography subject to `TapSigHashOk`. `hidx`/`hwfa` say that
+    `idx` is the offset behind the instruction; `hgood`: for the four legacy signature opcodes the script has no
+    decode error (with one, `delSig` and `FindAndDelete` differ — and the script fails as a whole, see
+    `evalScript_equiv`). -/
+theorem step_equiv (T : TotalOracles) (c : Ctx) (hO : c.O = T.toOracles) (leaf : Bytes) (annex : Option Bytes)
     (st : St) (s : ScriptSpec.State) (op : Op) (i : ScriptSpec.Instr) (idx pos : Nat)
-    (hop : i.op = op.opcode) (hdata : i.data = op.push.getD []) (hR : Rel c st s) (hp : provedOp i.op = true) :
-    Agree c (stepAt c st op idx pos) (ScriptSpec.execInstr (envOf T c leaf annex) s i pos) :=
-  stepAt_agree T c hO leaf annex st s op i idx pos hop hdata hR hp
+    (hop : i.op = op.opcode) (hdata : i.data = op.push.getD []) (hR : Rel c leaf annex st s) (hside : Side T c)
+    (hidx : c.p.drop idx = i.after)
+    (hwfa : c.sv = .base → (ScriptSpec.parse c.p).2 = false → (ScriptSpec.parse i.after).2 = false ∧ i.after.length < 2 ^ 32)
+    (hgood : isSigOp i.op = true → c.sv = .base → (ScriptSpec.parse c.p).2 = false) :
+    Agree c leaf annex (stepAt c st op idx pos) (ScriptSpec.execInstr (envOf T c leaf annex) s i pos) :=
+  stepAt_agree_all T c hO leaf annex st s op i idx pos hop hdata hR hside hidx hwfa hgood
 
 /-- The checks made for EVERY opcode (push size, op count, disabled opcodes, CONST_SCRIPTCODE, pushes incl.
-    MINIMALDATA, final stack-size check) agree between model and spec, whatever the opcode-specific parts do —
-    so each remaining opcode only needs its `execOp`/`execOpcode` case. -/
+    MINIMALDATA, executed / not executed, final stack-size check) agree between model and spec, whatever the
+    opcode-specific parts do. -/
 theorem step_frame_equiv (T : TotalOracles) (c : Ctx) (hO : c.O = T.toOracles) (leaf : Bytes) (annex : Option Bytes)
     (st : St) (s : ScriptSpec.State) (op : Op) (i : ScriptSpec.Instr) (idx pos : Nat)
-    (hop : i.op = op.opcode) (hdata : i.data = op.push.getD []) (hR : Rel c st s)
-    (H : op.opcode > 0x4e → ∀ st1 s1, Rel c st1 s1 →
-        Agree c (execOp c st1 op.opcode idx pos true) (ScriptSpec.execOpcode (envOf T c leaf annex) s1 i true pos)) :
-    Agree c (stepAt c st op idx pos) (ScriptSpec.execInstr (envOf T c leaf annex) s i pos) :=
+    (hop : i.op = op.opcode) (hdata : i.data = op.push.getD []) (hR : Rel c leaf annex st s)
+    (H : op.opcode > 0x4e → ∀ st1 s1, Rel c leaf annex st1 s1 →
+        (st1.exe.all id = true ∨ (0x63 ≤ op.opcode ∧ op.opcode ≤ 0x68)) →
+        Agree c leaf annex (execOp c st1 op.opcode idx pos (st1.exe.all id))
+          (ScriptSpec.execOpcode (envOf T c leaf annex) s1 i (st1.exe.all id) pos)) :
+    Agree c leaf annex (stepAt c st op idx pos) (ScriptSpec.execInstr (envOf T c leaf annex) s i pos) :=
   stepAt_frame T c hO leaf annex st s op i idx pos hop hdata hR H
 
-/-- `evalScript` ≡ `EvalScript` on every script that consists of proved opcodes (any length, any push forms,
-    truncated tail included): both return false / an error, or both return true with the SAME final stack.
-    Holds for every flag set, signature version, initial stack and total crypto instance; the model never panics. -/
-theorem evalScript_equiv_partial (T : TotalOracles) (tx : TxCtx) (flags : Nat) (p : Bytes) (stack : Stack)
-    (sv : SigVersion) (ed : ExecData) (hall : ∀ i ∈ (ScriptSpec.parse p).1, provedOp i.op = true) :
-    match evalScript T.toOracles tx flags p stack sv ed,
-          ScriptSpec.evalScript (envOf T ⟨T.toOracles, tx, flags, sv, p⟩ ed.tapleafHash ed.annexHash) p stack ed.weightLeft with
-    | .ok s1, .ok s2 => s1 = s2
-    | .fail, .error _ => True
-    | _, _ => False :=
-  evalScript_agree T tx flags p stack sv ed hall
+/-- gocoin's `delSig` = Core's `FindAndDelete(script, CScript() << sig)` (new script code and number of deletions) on
+    every script without a decode error shorter than 2^32 bytes. -/
+theorem delSig_eq_findAndDelete (code sig : Bytes) (hw : (ScriptSpec.parse code).2 = false) (hL : code.length < 2 ^ 32) :
+    delSig code sig = ScriptSpec.findAndDelete code (ScriptSpec.pushEncoding sig) :=
+  delSig_eq code sig hw hL
 
-/-- non-vacuity: `OP_1 OP_DUP OP_EQUAL`, a 2-byte push, `OP_HASH160 <20 bytes> OP_EQUAL` (the P2SH template)
-    and a script with a truncated push all satisfy the hypothesis of `evalScript_equiv_partial` -/
-example : ∀ i ∈ (ScriptSpec.parse [0x51, 0x76, 0x87]).1, provedOp i.op = true := by decide
-example : ∀ i ∈ (ScriptSpec.parse ([0xa9, 0x14] ++ List.replicate 20 7 ++ [0x87])).1, provedOp i.op = true := by decide
-example : ∀ i ∈ (ScriptSpec.parse [0x02, 0xaa, 0xbb, 0x75, 0x51, 0x4c]).1, provedOp i.op = true := by decide
+/-- `evalScript` ≡ `EvalScript` on EVERY script (any opcodes, any length, any push forms, decode errors included):
+    both return false / an error, or both return true with the SAME final stack. Holds for every signature version,
+    initial stack, execution data, every flag set with `NopsOk` and every total crypto instance with `TapSigHashOk`. -/
+theorem evalScript_equiv (T : TotalOracles) (tx : TxCtx) (flags : Nat) (p : Bytes) (stack : Stack)
+    (sv : SigVersion) (ed : ExecData) (hT : TapSigHashOk T tx) (hq : NopsOk flags) :
+    match ScriptSpec.evalScript (envOf T ⟨T.toOracles, tx, flags, sv, p⟩ ed.tapleafHash ed.annexHash) p stack ed.weightLeft with
+    | .ok s2 => evalScript T.toOracles tx flags p stack sv ed = .ok s2
+    | .error _ => evalScript T.toOracles tx flags p stack sv ed = .fail :=
+  evalScript_agree_all T tx flags p stack sv ed hT hq
 
--- OPEN: the central theorem at full strength (DESIGN.md §6 C01):
---   theorem script_equiv (T : TotalOracles) (tx : TxCtx) (pk : Bytes) (flags : Nat)
---       (hf : ScriptSpec.FlagsOk (ScriptSpec.Flags.ofMask flags)) :
---       verifyTxScript T.toOracles tx pk flags =
---         (match ScriptSpec.verifyScript T.toOracles tx pk (ScriptSpec.Flags.ofMask flags) with
---          | .ok () => .ok () | .error _ => .fail)
--- What is missing: (a) the `execOp`/`execOpcode` cases of the opcodes outside `provedOp` — IF/NOTIF/ELSE/ENDIF
--- (needs the list ↔ counter condition-stack relation in `Rel`), DEPTH/SIZE/PICK/ROLL and the arithmetic group
--- (popInt ↔ CScriptNum: `bts2int_eq_scriptnum`, `isMinimal_eq_core`, `pushInt_eq_serialize` are the lemmas they
--- need), CLTV/CSV (`bts2intExt_eq_scriptnum`), CODESEPARATOR, CHECKSIG(VERIFY/ADD) and CHECKMULTISIG(VERIFY)
--- (delSig vs FindAndDelete, cursor arithmetic vs list form) — each plugs into `step_frame_equiv`;
--- (b) the wrappers VerifyTxScript / VerifyWitnessProgram / ExecuteWitnessScript / VerifyTaprootCommitment
--- (straight-line code; `isPushOnly_eq_spec`, `opSuccessScan_eq_spec` are their decode parts).
--- Until then every opcode and the wrappers are covered by the differential run (implementation vs model vs spec).
+/-! ## (vi) the wrappers and the central theorem -/
+
+/-- `ExecuteWitnessScript` (OP_SUCCESSx pre-scan with DISCOURAGE_OP_SUCCESS, 1000-element / 520-byte limits on the
+    initial stack, evaluation, exactly-one-true-element rule) returns true exactly where the rules raise no error —
+    witness v0 and tapscript, the latter with tapleaf hash, annex hash and validation-weight budget `ed.weightLeft`. -/
+theorem executeWitnessScript_equiv (T : TotalOracles) (tx : TxCtx) (stack : Stack) (script : Bytes) (flags : Nat)
+    (sv : SigVersion) (ed : ExecData) (hT : TapSigHashOk T tx) (hq : NopsOk flags) :
+    match ScriptSpec.executeWitnessScript T.toOracles tx (ScriptSpec.Flags.ofMask flags) {} stack script sv ed.tapleafHash ed.annexHash ed.weightLeft with
+    | .ok _ => executeWitnessScript T.toOracles tx stack script flags sv ed = .ok ()
+    | .error _ => executeWitnessScript T.toOracles tx stack script flags sv ed = .fail :=
+  executeWitnessScript_agree T tx stack script flags sv ed hT hq
+
+/-- `VerifyWitnessProgram` ≡ the rules: v0 P2WPKH / P2WSH (program lengths, witness-script hash), v1 taproot key path
+    (annex, Schnorr check with the "no digest ⇒ fail" rule) and script path (control block sizes 33+32k ≤ 4129,
+    tapleaf hash, merkle path in lexicographic order, tweak check with parity, leaf version 0xc0 ⇒ tapscript with the
+    validation-weight budget 50 + serialized size of the WHOLE witness — annex, control block and script included —,
+    other leaf versions and DISCOURAGE_UPGRADABLE_TAPROOT_VERSION), unknown versions and
+    DISCOURAGE_UPGRADABLE_WITNESS_PROGRAM, P2SH-wrapped v1 not being taproot. -/
+theorem verifyWitnessProgram_equiv (T : TotalOracles) (tx : TxCtx) (witness : List Bytes) (ver : Nat) (prog : Bytes)
+    (flags : Nat) (isP2sh : Bool) (hT : TapSigHashOk T tx) (hq : NopsOk flags) :
+    match ScriptSpec.verifyWitnessProgram T.toOracles tx (ScriptSpec.Flags.ofMask flags) {} witness ver prog isP2sh with
+    | .ok _ => verifyWitnessProgram T.toOracles tx witness ver prog flags isP2sh = .ok ()
+    | .error _ => verifyWitnessProgram T.toOracles tx witness ver prog flags isP2sh = .fail :=
+  verifyWitnessProgram_agree T tx witness ver prog flags isP2sh hT hq
+
+/-- CENTRAL THEOREM (DESIGN.md §6 C01). For every spending input — any scriptSig, scriptPubKey, witness stack and
+    transaction context `tx`, every flag set that satisfies Core's flag dependencies (`FlagsOk`) and `NopsOk`, and every
+    total instance of the cryptography whose taproot signature hash is defined exactly where BIP341 defines it
+    (`TapSigHashOk`) — the verdict of the model of `script.VerifyTxScript` IS the verdict of the Bitcoin script rules
+    (`ScriptSpec.verifyScript`: legacy, P2SH, segwit v0, taproot key path and script path, tapscript): it returns true
+    where the rules raise no error, false where they raise one, and never panics. -/
+theorem script_equiv (T : TotalOracles) (tx : TxCtx) (pk : Bytes) (flags : Nat)
+    (hf : ScriptSpec.FlagsOk (ScriptSpec.Flags.ofMask flags)) (hq : NopsOk flags) (hT : TapSigHashOk T tx) :
+    verifyTxScript T.toOracles tx pk flags =
+      (match ScriptSpec.verifyScript T.toOracles tx pk (ScriptSpec.Flags.ofMask flags) with
+       | .ok () => .ok ()
+       | .error _ => .fail) := by
+  have h := verifyTxScript_agree T tx pk flags hf hq hT
+  unfold UnitMatch at h
+  cases hs : ScriptSpec.verifyScript T.toOracles tx pk (ScriptSpec.Flags.ofMask flags) with
+  | error e => rw [hs] at h; exact h
+  | ok u => rw [hs] at h; cases u; exact h
+
+/-- "nothing is accepted that the rules reject" — the soundness direction alone -/
+theorem accept_sound (T : TotalOracles) (tx : TxCtx) (pk : Bytes) (flags : Nat)
+    (hf : ScriptSpec.FlagsOk (ScriptSpec.Flags.ofMask flags)) (hq : NopsOk flags) (hT : TapSigHashOk T tx)
+    (hacc : verifyTxScript T.toOracles tx pk flags = .ok ()) :
+    ScriptSpec.verifyScript T.toOracles tx pk (ScriptSpec.Flags.ofMask flags) = .ok () := by
+  have h := script_equiv T tx pk flags hf hq hT
+  rw [hacc] at h
+  cases hs : ScriptSpec.verifyScript T.toOracles tx pk (ScriptSpec.Flags.ofMask flags) with
+  | error e => rw [hs] at h; cases h
+  | ok u => cases u; rfl
+
+/-- non-vacuity: a crypto instance satisfying `TapSigHashOk` exists for every transaction context, and the consensus
+    and the standard flag sets satisfy `NopsOk` -/
+example (tx : TxCtx) : ∃ T : TotalOracles, TapSigHashOk T tx :=
+  ⟨⟨id, id, id, id, id, fun _ _ => [], fun _ _ => [], fun _ _ _ ht _ => if ScriptSpec.tapHashTypeDefined tx ht then [1] else [],
+    fun _ _ _ => false, fun _ _ _ => false, fun _ _ _ _ => false⟩,
+   by intro a l csp ht scr; simp only; cases ScriptSpec.tapHashTypeDefined tx ht <;> simp⟩
+example : NopsOk (VER_P2SH ||| VER_DERSIG ||| VER_NULLDUMMY ||| VER_CLTV ||| VER_CSV ||| VER_WITNESS ||| VER_TAPROOT) := by
+  unfold NopsOk; decide
+example : NopsOk (VER_P2SH ||| VER_BLOCK_OPS ||| VER_CLTV ||| VER_CSV) := by unfold NopsOk; decide
 
 end GocoinV.Props.C01
